@@ -143,4 +143,35 @@ VENTRY(h_start)
         }
         for (int i = 0; i < n0; i++) vcheck_eq(L0.solution()[i], cur[i], "start=interpolated-coarse-solution", i);
     }
+    else {
+        // oracle: the nested iteration written out on a second solver object — coarsest direct solve, then per level
+        // FMG interpolation followed by FMG_iterations cycles of the CONFIGURED type (extrapolated variant on level 0 only)
+        alignas(GMGPolar) static unsigned char buf2[sizeof(GMGPolar)];
+        GMGPolar* h = vmake_state(buf2, c);
+        h->setup();
+        for (int l = 0; l < L; l++) {
+            Level& lev = h->levels_[l];
+            const int n = lev.grid().numberOfNodes();
+            for (int i = 0; i < n; i++) {
+                lev.rhs()[i] = vsym("f", i, l); lev.solution()[i] = 0.0; lev.residual()[i] = 0.0;
+                if (lev.error_correction().size() == n) lev.error_correction()[i] = 0.0;
+            }
+        }
+        Level& Hc = h->levels_[L - 1];
+        Hc.solution() = Hc.rhs();
+        Hc.directSolveInPlace(Hc.solution());
+        std::vector<int> thr(L, 1);
+        Interpolation I(thr, c.dirbc != 0);
+        for (int l = L - 1; l > 0; l--) {
+            Level& fine = h->levels_[l - 1];
+            I.applyFMGInterpolation(h->levels_[l], fine, fine.solution(), h->levels_[l].solution());
+            for (int k = 0; k < c.fmg_iterations; k++) {
+                const bool ex = (l - 1 == 0) && c.extrapolation != 0;
+                if (c.fmg_cycle == 0) { if (ex) h->implicitlyExtrapolatedMultigrid_V_Cycle(l - 1, fine.solution(), fine.rhs(), fine.residual()); else h->multigrid_V_Cycle(l - 1, fine.solution(), fine.rhs(), fine.residual()); }
+                else if (c.fmg_cycle == 1) { if (ex) h->implicitlyExtrapolatedMultigrid_W_Cycle(l - 1, fine.solution(), fine.rhs(), fine.residual()); else h->multigrid_W_Cycle(l - 1, fine.solution(), fine.rhs(), fine.residual()); }
+                else { if (ex) h->implicitlyExtrapolatedMultigrid_F_Cycle(l - 1, fine.solution(), fine.rhs(), fine.residual()); else h->multigrid_F_Cycle(l - 1, fine.solution(), fine.rhs(), fine.residual()); }
+            }
+        }
+        for (int i = 0; i < n0; i++) vcheck_eq(L0.solution()[i], h->levels_[0].solution()[i], "start=nested-iteration(configured-cycle,configured-count)", i);
+    }
 }
